@@ -12,6 +12,10 @@ CLAIMED = {
              note="Trusted: C03 oracle and brute-force order count as targets; engine stubs; `if not log_p` zero-sentinel paths cut by assumption (explored in C03); real arithmetic; grid 2, one sample."),
  "C01": dict(ref="§3 C01", text="Bounded solver-decided invariance: the real particle-Gibbs update is run from every tree of the independently enumerated state space under an enumerating RNG, giving exact symbolic transition rows; z3 proves row sums == 1 and sum_t gamma(t)K(t,t') == gamma(t') on every cell of the data-dependent (ESS) decisions. n <= 2 data points, N = 2 particles, grid 2, thresholds {0, 3/4, 1}, three proposals x {library, run-command wiring} x outliers {off: fully symbolic data and alpha; on: three coordinate slices with the remaining unknowns at stated rationals}; thorough adds n = 3 slices, N = 3, grid 3.",
              note="Trusted: gamma from the real log_p_one (C03's subject); engine stubs; zero-sentinel paths cut by assumption; with outliers on the identity is decided on coordinate slices (fully symbolic form is beyond z3: unknown after 300 s); validity of particle Gibbs as an algorithm is not re-proved, the code's exact transition law is checked within the bounds."),
+ "C04": dict(ref="§3 C04", text="Bounded solver-decided invariance of each auxiliary move (same construction as C01: exact symbolic transition rows from every tree, z3 proves row sums and sum_t gamma(t)K(t,t') == gamma(t') per cell): data-point Gibbs (outliers off/on) and prune-regraft at n=2 (fully symbolic / slices) and n=3 (coordinate slices; thorough also fully symbolic without outliers); subtree particle Gibbs at n=2 for three proposals x {library, run} wiring x thresholds {1/2,1} (+ outlier slices), its conditional block kernel at n=3, and the full subtree move at n=3 with alpha symbolic (a recorded known finding).",
+             note="Trusted: as C01; unknowns outside a slice are held at the rationals in checks/c01.py:ANCHOR; composition of invariant kernels is invariant (not re-derived); one open known finding (subtree selection) listed in known_findings.json."),
+ "C09": dict(ref="§3 C09", cat="exploration", tech="exhaustive bounded exploration of the real permutation sampler under an enumerating RNG with exact rational probabilities (the solver-based engine with no symbolic numeric input: all queries ground)", text="No numeric input exists, so the engine degenerates to exhaustive bounded exploration with exact arithmetic: for every forest on <= 4 (quick) / 5 (thorough) data points incl. outlier subsets, the set of orders produced over all shuffle outcomes == brute-force linear extensions, each has probability exactly 1/#orders, and exp(-log_pdf) == #orders exactly.",
+             note="Trusted: lgamma exact at integers (stub); brute-force enumeration of compatible orders as oracle; n > 5 outside."),
 }
 NA = {
  "C17": "all logic is inside pandas (read_table, groupby/transform, sort_values, .at): symbolic tables cannot cross into it and an SMT model of those calls would verify the model, not the code; the one pure-Python rule (major < minor raises) is covered under C05",
